@@ -439,9 +439,176 @@ def prebuild(tier):
     from .. import build
     for c in ("asm", "p64", "p32"):
         build.build_shim(c)
+    arm_backends("arm")      # assemble / expand the ARM sources once, before the workers fork
 
 
 SUBCHECKS = [
     Sub("primitives", prim_cases(), check_prim, 30000, 1500000, ("all",), ("all",), setup=setup_backends),
     Sub("generic", generic_cases(), check_generic, 40000, 1000000, ("p64", "p32", "asm"), ("p64", "p32", "asm")),
 ]
+
+
+# ---- ARM back ends under the interpreters ----------------------------------------------------------------
+class ArmBackend:
+    """Runs the eleven primitives on the AArch64 or ARMv6-M assembly sources of the working tree under vf/arm."""
+    RES, A, B, P, T = 0x1000, 0x2000, 0x3000, 0x4000, 0x5000
+
+    def __init__(self, arch, mov_flags=False):
+        import os
+        from ..arm import a64, thumb
+        from .. import build as b
+        r = b.repo()
+        self.arch = arch
+        self.name = "aarch64-asm(interpreted)" if arch == "a64" else "armv6m-asm(interpreted%s)" % (",mov-sets-flags" if mov_flags else "")
+        if arch == "a64":
+            d = os.path.join(r, "src/core/arch/aarch64")
+            files = [os.path.join(d, "bigint.s"), os.path.join(d, "multiply.s")]
+            listing = a64.assemble(files)
+            self.progs = {k: a64.Program(v) for k, v in listing.items()}
+            self.sym = {}
+            for k, p in self.progs.items():
+                for s in p.entry:
+                    self.sym[s] = a64.Machine(p)
+            self.pfx = "embedded_pairing_core_arch_aarch64_"
+            self.word = 64
+            self.faults = (a64.MemoryFault, a64.AbiFault)
+        else:
+            d = os.path.join(r, "src/core/arch/armv6_m")
+            texts = [open(os.path.join(d, f)).read() for f in ("bigint.s", "multiply.s")]
+            prog = thumb.Program(texts)
+            from .. import lib as libmod
+            p32 = libmod.get("p32")
+
+            def reduce(m, res, a, p, _r3):
+                av = bytes(m.mem[a:a + 48])
+                pv = bytes(m.mem[p:p + 48])
+                if conv.ib(pv) != Q:
+                    raise thumb.ThumbError("reduce called with an unexpected modulus")
+                rv, out = p32.op("fq_reduce", av)
+                m.mem[res:res + 48] = out
+                return 0
+            self.machine = thumb.Machine(prog, {"embedded_pairing_core_arch_armv6_m_fpbase_384_reduce": reduce}, mov_sets_flags=mov_flags)
+            self.pfx = "embedded_pairing_core_arch_armv6_m_"
+            self.word = 32
+            self.faults = (thumb.MemoryFault, thumb.AbiFault)
+
+    def call(self, name, args, regions, stack_args=()):
+        if self.arch == "a64":
+            m = self.sym[self.pfx + name]
+            return m, m.run(self.pfx + name, args, regions)
+        return self.machine, self.machine.run(self.pfx + name, args, regions, stack_args)
+
+    def _machines(self):
+        return list(set(self.sym.values())) if self.arch == "a64" else [self.machine]
+
+    def _load(self, m, a, b, t=None):
+        m.mem[self.A:self.A + 48] = conv.bi(a, 384)
+        m.mem[self.B:self.B + 48] = conv.bi(b, 384)
+        m.mem[self.P:self.P + 48] = conv.bi(Q, 384)
+        m.mem[self.RES:self.RES + 96] = b"\xCD" * 96
+        if t is not None:
+            m.mem[self.T:self.T + 96] = conv.bi(t, 768)
+
+    def prim(self, name, a, b, dst, t=None, nargs=3):
+        """Runs one assembly routine with standard buffers; returns (rv, result bytes reader)."""
+        inv = F.FQ_INV & ((1 << self.word) - 1)
+        m = self.sym[self.pfx + name] if self.arch == "a64" else self.machine
+        self._load(m, a, b, t)
+        regs = {
+            "bigint_384_add": [dst, self.A, self.B], "bigint_384_subtract": [dst, self.A, self.B], "bigint_384_multiply2": [dst, self.A],
+            "bigint_768_multiply": [self.RES, self.A, self.B], "bigint_768_square": [self.RES, self.A],
+            "fpbase_384_multiply": [dst, self.A, self.B, self.P, inv], "fpbase_384_square": [dst, self.A, self.P, inv],
+            "fpbase_384_montgomery_reduce": [self.RES, self.T, self.P, inv],
+        }[name]
+        stack = ()
+        if self.arch != "a64" and len(regs) > 4:
+            regs, stack = regs[:4], tuple(regs[4:])
+        regions = [(self.RES, 96), (self.A, 48), (self.B, 48), (self.P, 48), (self.T, 96)]
+        if self.arch == "a64":
+            rv = m.run(self.pfx + name, regs, regions)
+        else:
+            rv = m.run(self.pfx + name, regs, regions, stack)
+        return m, rv
+
+    def run(self, prim, a, b, alias):
+        dst = self.A if alias else self.RES
+        rd = lambda m, addr, n: conv.ib(bytes(m.mem[addr:addr + n]))
+        if prim == "bi_add":
+            m, rv = self.prim("bigint_384_add", a, b, dst)
+            return rv & 1 if rv in (0, 1) else rv, rd(m, dst, 48)
+        if prim == "bi_sub":
+            m, rv = self.prim("bigint_384_subtract", a, b, dst)
+            return rv, rd(m, dst, 48)
+        if prim == "bi_dbl":
+            m, rv = self.prim("bigint_384_multiply2", a, b, dst)
+            return rv, rd(m, dst, 48)
+        if prim == "bi_mul":
+            m, rv = self.prim("bigint_768_multiply", a, b, dst)
+            return None, rd(m, self.RES, 96)
+        if prim == "bi_sqr":
+            m, rv = self.prim("bigint_768_square", a, b, dst)
+            return None, rd(m, self.RES, 96)
+        if prim == "fp_mul":
+            m, rv = self.prim("fpbase_384_multiply", a, b, dst)
+            return None, rd(m, dst, 48)
+        if prim == "fp_sqr":
+            m, rv = self.prim("fpbase_384_square", a, b, dst)
+            return None, rd(m, dst, 48)
+        if prim == "fp_mred":
+            m, rv = self.prim("fpbase_384_montgomery_reduce", 0, 0, dst, t=a)
+            return None, rd(m, self.RES, 48)
+        # modular add / subtract / double: the generic FpBase code of fp.hpp composed from the assembly BigInt primitives
+        if prim == "fp_add":
+            m, carry = self.prim("bigint_384_add", a, b, self.RES)
+            s = rd(m, self.RES, 48)
+            if s >= Q or carry:
+                m2, _ = self.prim("bigint_384_subtract", s, Q, self.RES)
+                s = rd(m2, self.RES, 48)
+            return None, s
+        if prim == "fp_sub":
+            m, borrow = self.prim("bigint_384_subtract", a, b, self.RES)
+            s = rd(m, self.RES, 48)
+            if borrow:
+                m2, _ = self.prim("bigint_384_add", s, Q, self.RES)
+                s = rd(m2, self.RES, 48)
+            return None, s
+        if prim == "fp_dbl":
+            m, out = self.prim("bigint_384_multiply2", a, b, self.RES)
+            s = rd(m, self.RES, 48)
+            if s >= Q or out:
+                m2, _ = self.prim("bigint_384_subtract", s, Q, self.RES)
+                s = rd(m2, self.RES, 48)
+            return None, s
+        raise KeyError(prim)
+
+
+_arm = {}
+
+
+def arm_backends(cfg):
+    if "x" not in _arm:
+        _arm["x"] = [ArmBackend("a64"), ArmBackend("thumb", False), ArmBackend("thumb", True)]
+    return _arm["x"]
+
+
+def check_arm(ctx, env, c):
+    prim, a, b, alias = c["prim"], c["a"], c["b"], c["alias"]
+    erv, eres, bits = oracle(prim, a, b)
+    cl = prim_classes(prim, a, b)
+    if alias:
+        cl.append("aliased")
+    ctx.count(c, bool(cl), "arm-" + prim + (":" + cl[0] if cl else ""))
+    for be in env:
+        try:
+            rv, res = be.run(prim, a, b, alias)
+        except be.faults as e:
+            raise Violation("%s/%s/abi-or-memory" % (be.name.split("(")[0], prim), "a=%x b=%x: %s" % (a, b, e))
+        ctx.event("backend/" + be.name)
+        if erv is not None:
+            expect(rv == erv, "%s/%s/flag" % (be.name, prim), lambda: "a=%x b=%x alias=%r flag=%r expected=%r" % (a, b, alias, rv, erv))
+        expect(res == eres, "%s/%s/value" % (be.name, prim), lambda: "a=%x b=%x alias=%r got=%x expected=%x" % (a, b, alias, res, eres))
+
+
+from ..runner import Violation  # noqa: E402
+
+SUBCHECKS.append(Sub("arm", prim_cases(), check_arm, 24000, 400000, ("arm",), ("arm",), setup=arm_backends))
